@@ -13,7 +13,7 @@ structure PodObj where
 
 inductive Obj
   | pod (p : PodObj)
-  | namespace (name : Str) (labels : Labels)
+  | ns (name : Str) (labels : Labels)
   | controller (template : Option PodObj)   -- any of the eight kinds, after ExtractPodSpec
   | other                                   -- a type ExtractPodSpec does not know
   | nil
@@ -37,16 +37,28 @@ structure World (E : Type) where
   listPods : Except Unit (List PodObj) := .ok []
   /-- ctx.Err() ≠ nil from the k-th evaluator call of the dry run on (0-based); none = never -/
   expireAfter : Option Nat := none
+  /-- request deadline minus now, in ns, when the request context has a deadline -/
+  remaining : Option Int := none
   ev : E
 
 inductive Warning
   | policy (lv : LevelVersion) (a : Agg)
-  | exemptNamespace
+  | exemptNamespace (text : Str)
   | listFailed
   | onlyChecked (checked total : Nat)
   | header (ns : Str) (lv : LevelVersion)
-  | podLine (first : Str) (others : Nat) (reasons : Str)
+  | podLine (text : Str)               -- "<first>[ (and N other pod[s])]: <reasons>", already decorated
   deriving DecidableEq, Repr
+
+def Warning.text : Warning → Str
+  | .policy lv a => b!"would violate PodSecurity " ++ goQuote lv.str ++ b!": " ++ a.detailText
+  | .exemptNamespace t => t
+  | .listFailed => b!"failed to list pods while checking new PodSecurity enforce level"
+  | .onlyChecked c t =>
+      b!"new PodSecurity enforce level only checked against the first " ++ itoa c ++ b!" of " ++ itoa t ++ b!" existing pods"
+  | .header ns lv =>
+      b!"existing pods in namespace " ++ goQuote ns ++ b!" violate the new PodSecurity enforce level " ++ goQuote lv.str
+  | .podLine t => t
 
 structure Resp where
   allowed : Bool
@@ -65,6 +77,7 @@ structure Eff where
   metrics : List Metric := []
   evalCalls : List (LevelVersion × Str) := []   -- (policy, pod name)
   listCalls : Nat := 0
+  listTimeout : Int := 0                         -- ns; meaningful when listCalls = 1
   deriving DecidableEq, Repr
 
 def allowPlain : Resp := { allowed := true }
